@@ -4,7 +4,7 @@ import math
 import os
 import struct
 
-RATES = (0.5, 0.3, 0.2, 0.1, 0.05, 0.02, 0.01, 0.001, 1e-05, 1e-09)
+RATES = (0.5, 0.3, 0.2, 0.1, 0.05, 0.02, 0.01, 0.001, 1e-05, 1e-09, 1e-20, 1e-37)
 EST = (1, 2, 3, 5, 8, 13, 40, 200, 1000)
 
 
@@ -86,3 +86,19 @@ def bit_set(arr, pos):
 
 def popcount_bytes(b):
     return sum(bin(x).count("1") for x in b)
+
+
+def parse_expanding(payload, m):
+    """Split an expanding/rotating export by layout: [Q count][ceil(m/8) bytes] * n + QQQf footer.
+    Returns (counts, arrays, (n, est, added, rate))."""
+    n, est, added, rate = struct.unpack("QQQf", payload[-28:])
+    blen = (m + 7) // 8
+    counts, arrays = [], []
+    off = 0
+    for _ in range(n):
+        counts.append(struct.unpack("Q", payload[off:off + 8])[0])
+        arrays.append(payload[off + 8:off + 8 + blen])
+        off += 8 + blen
+    if off != len(payload) - 28:
+        return None
+    return counts, arrays, (n, est, added, rate)
